@@ -6,21 +6,12 @@ set -u
 cd "$(dirname "$0")"
 export GOFLAGS=-mod=mod GOPROXY=off GOSUMDB=off GOTOOLCHAIN=local CGO_ENABLED=1
 PROP="$1"; TIER="${2:-${VERIF_TIER:-quick}}"
-REPO="${VERIF_REPO:-/repo}"
-MODFILE=go.mod
-if [ "$REPO" != "/repo" ]; then
-  mkdir -p tmp
-  MODFILE="tmp/go.$$.mod"
-  sed "s|=> /repo|=> $REPO|" go.mod > "$MODFILE"; cp go.sum "tmp/go.$$.sum"
-fi
-BIN="bin/gfsim.$$"
-mkdir -p bin
-if ! go build -modfile="$MODFILE" -o "$BIN" ./cmd/gfsim 2> "bin/build.$$.log"; then
-  echo "BUILD FAILED (cannot decide):"; head -30 "bin/build.$$.log"; rm -f "bin/build.$$.log" "$BIN" tmp/go.$$.*
-  exit 2
-fi
-rm -f "bin/build.$$.log" tmp/go.$$.*
-VERIF_DIR="$(pwd)" "./$BIN" check --prop "$PROP" --tier "$TIER"
-code=$?
-rm -f "$BIN"
-exit $code
+export VERIF_REPO="${VERIF_REPO:-/repo}"
+. ./build_lib.sh
+WORK="$(mktemp -d /tmp/gfsim-check-XXXXXX)"
+trap 'rm -rf "$WORK"' EXIT
+build_plain "$WORK" || exit 2
+case "$PROP" in
+  C08|C09) build_instrumented "$WORK" "$PROP" || exit 2 ;;
+esac
+VERIF_DIR="$(pwd)" "$WORK/gfsim" check --prop "$PROP" --tier "$TIER"
